@@ -339,3 +339,34 @@ func OrderOps(ops []Op) []Op {
 	sort.SliceStable(out, func(i, j int) bool { return rank[out[i].Kind] < rank[out[j].Kind] })
 	return out
 }
+
+// DetectVariant asks the repository under test, by the directed two-conflict-rounds schedule, which
+// refetchAndMergeClosure it has: "legacy" (the replayed add is dropped from the tracker: the writer's key is missing
+// at the end) or "repaired". C06's theorems hold for both; its cases carry the answer to the model driver.
+func DetectVariant(ctx context.Context) (string, error) {
+	sc := Scenario{Slot: 8, Init: [][]Op{Adds(10, 20)}, Writers: []WriterSpec{{Ops: Adds(1)}, {Ops: Adds(2)}, {Ops: Adds(3)}}}
+	r, err := NewRun(ctx, sc)
+	if err != nil {
+		return "", err
+	}
+	defer r.Close()
+	sched := []int{0, 1, 1, 1, 0, 0, 0, 0, 2, 2, 2}
+	for n := 0; n < 40; n++ {
+		sched = append(sched, 0)
+	}
+	for _, i := range sched {
+		if _, err := r.Step(i); err != nil {
+			return "", err
+		}
+	}
+	_, items, err := r.Dump()
+	if err != nil {
+		return "", err
+	}
+	for _, it := range items {
+		if strings.HasPrefix(it, "1=") {
+			return "repaired", nil
+		}
+	}
+	return "legacy", nil
+}
